@@ -147,13 +147,13 @@ TEXT = {
         "technique": "Lean 4 proof for the expression fragment (lexer concatenation theorem + printer/lexer agreement + parser completeness) + table obligations + property predicate evaluated on the implementation",
     },
     "C05": {
-        "level": "Proof (partial: a fragment). Explored on the real entry points: range, token alignment (with the >> split), nesting and sibling order of every node of every returned tree; Lean theorems about Pos()/End() as functions of the tree exist (C04/C19) but the parser-side alignment is not proved. Proved for the ParseType entry point: for every accepted input of the model (lexer + parser), every node - types, struct fields, identifiers - starts at a token start and ends at a token end ('>>' and '<>' counted as two one-byte tokens), satisfies 0 <= pos < end <= len, and contains its children in order without overlap (MF.Props.C05.type_positions); the known defect of a back-quoted simple type name (End() two bytes short) is excluded by hypothesis and reproduced by MF.Props.C05.type_positions_fails_backquoted. Proved for the expression fragment: for lexer output and a successful ParseExpr of the model with positions (MF/Model/ExprPos.lean, tied to the Go parser by the EXPRPOS channel), every Go node of the tree starts at the pos of a token and ends at the end of a token it consumed, so Pos < End <= len, children lie inside their parent, in source order without overlap (MF.Props.C05.expr_positions); a folded sign '- 1' is one literal over two tokens. The fragment models' printers and position formulas are proved equal to the interpretation of the regenerated tables (MF/Props/C19Bridge.lean: pos_bridge_expr, pos_bridge_type, pos_bridge_field and the pos_doc_* variants, registered under C19): posP / endP / posT / endT / posF / endF of these theorems are the Pos() / End() methods that tools/extract reads out of ast/pos.go (and the // pos =, // end = lines of ast/ast.go) on every run.",
+        "level": "Proof (partial: a fragment). Explored on the real entry points: range, token alignment (with the >> split), nesting and sibling order of every node of every returned tree; Lean theorems about Pos()/End() as functions of the tree exist (C04/C19) but the parser-side alignment is not proved. Proved for the ParseType entry point: for every accepted input of the model (lexer + parser), every node - types, struct fields, identifiers - starts at a token start and ends at a token end ('>>' and '<>' counted as two one-byte tokens), satisfies 0 <= pos < end <= len, and contains its children in order without overlap (MF.Props.C05.type_positions); the known defect of a back-quoted simple type name (End() two bytes short) is excluded by hypothesis and reproduced by MF.Props.C05.type_positions_fails_backquoted. Proved for the expression fragment: for lexer output and a successful ParseExpr of the model with positions (MF/Model/ExprPos.lean, tied to the Go parser by the EXPRPOS channel), every Go node of the tree starts at the pos of a token and ends at the end of a token it consumed, so Pos < End <= len, children lie inside their parent, in source order without overlap (MF.Props.C05.expr_positions); a folded sign '- 1' is one literal over two tokens. The fragment models' printers and position formulas are proved equal to the interpretation of the regenerated tables (MF/Props/C19Bridge.lean: pos_bridge_expr, pos_bridge_type, pos_bridge_field and the pos_doc_* variants, registered under C19): posP / endP / posT / endT / posF / endF of these theorems are the Pos() / End() methods that tools/extract reads out of ast/pos.go (and the // pos =, // end = lines of ast/ast.go) on every run. Whole grammar, static (regenerated on every run, kernel-decided): O2 MF.Props.C05.offsets_match - every documented summand F + n of every pos/end expression is fed, at every ast.K{...} literal of parser.go, by the start of a token whose raw text is n bytes long (provenance read out of parser.go by tools/extract/posprov.go), MF.Props.C05.reads_guarded - every position field is read from a token the dominating guards determine; O3 MF.Props.C05.chains_complete - the documented pos/end chains name the leading/trailing optional items of the SQL() template in order (252 of 264 kinds, 12 exempt with reasons); exceptions are explicit tables that fail when stale; the link site-executes-with-that-token is the extracted fact, not a theorem.",
         "design_ref": "DESIGN.md §4 C05",
         "note": "Theorems cover the ParseType entry point and the expression fragment of ParseExpr only and are about the models (tied to the code by the LEX, TYPE and EXPRPOS channels); every other entry point and node kind is exploration. Known findings are listed in known-findings.txt.",
         "technique": "Lean 4 proof for ParseType and for the expression fragment with positions (erasure to the proved expression model; function-for-function parser model with positions, grammar as an inductive relation, lexer window/concatenation theorems) + TYPE correspondence channel + property predicate evaluated on the implementation (corpus, reference grammar G, grafts, edits, mutations)",
     },
     "C06": {
-        "level": "Proof (partial: a fragment). Explored on the real entry points: slice-and-reparse and splice-and-reparse for every node of accepted corpus/probe/mutated inputs. Proved for the ParseType entry point (lexer and parser model): for every accepted input and every type node n whose subtree has no SimpleType on a back-quoted token (known defect, End() two bytes short), the slice input[Pos:End] lexes and parses on its own to n with all positions decreased by Pos() (MF.Props.C06.type_exact; parser side type_exact_tokens, lexer side slice_lex = a window-locality theorem for the lexer model: no sentinel at the cut, positions shifted, a '>>' cut in the middle becomes '>'); StructField and Ident nodes are excluded (not types); the same statement is evaluated on the implementation for every type node of every OK request of the TYPE channel (flag ex). Proved for the expression fragment: the text input[Pos:End] of every sub-expression of a parsed expression lexes on its own (a token-aligned slice needs no ';' behind it) and ParseExpr of it is the node with all positions moved Pos bytes to the left (MF.Props.C06.expr_exact_partial, side condition: no unquoted SAFE_CAST / REPLACE_FIELDS field name inside the node); not covered, and false in the Go code, for the Idents used as path components or field names ('a.1', 'a.select').",
+        "level": "Proof (partial: a fragment). Explored on the real entry points: slice-and-reparse and splice-and-reparse for every node of accepted corpus/probe/mutated inputs. Proved for the ParseType entry point (lexer and parser model): for every accepted input and every type node n whose subtree has no SimpleType on a back-quoted token (known defect, End() two bytes short), the slice input[Pos:End] lexes and parses on its own to n with all positions decreased by Pos() (MF.Props.C06.type_exact; parser side type_exact_tokens, lexer side slice_lex = a window-locality theorem for the lexer model: no sentinel at the cut, positions shifted, a '>>' cut in the middle becomes '>'); StructField and Ident nodes are excluded (not types); the same statement is evaluated on the implementation for every type node of every OK request of the TYPE channel (flag ex). Proved for the expression fragment: the text input[Pos:End] of every sub-expression of a parsed expression lexes on its own (a token-aligned slice needs no ';' behind it) and ParseExpr of it is the node with all positions moved Pos bytes to the left (MF.Props.C06.expr_exact_partial, side condition: no unquoted SAFE_CAST / REPLACE_FIELDS field name inside the node); not covered, and false in the Go code, for the Idents used as path components or field names ('a.1', 'a.select'). Whole grammar, static: the O2/O3 table obligations registered under C05 (MF.Props.C05.offsets_match, reads_guarded, chains_complete, over tables regenerated from parser.go, ast/ast.go, ast/sql.go on every run) are the deterministic detectors for a range that is one token short or long: they are audited by this check too.",
         "design_ref": "DESIGN.md §4 C06",
         "note": "Theorems cover the ParseType entry point and the expression fragment of ParseExpr only and are about the models (tied to the code by the LEX, TYPE and EXPRPOS channels); every other entry point and node kind is exploration. Known findings are listed in known-findings.txt.",
         "technique": "Lean 4 proof for ParseType and for the expression fragment with positions (erasure to the proved expression model; function-for-function parser model with positions, grammar as an inductive relation, lexer window/concatenation theorems) + TYPE correspondence channel + property predicate evaluated on the implementation (corpus, reference grammar G, grafts, edits, mutations)",
